@@ -226,6 +226,19 @@ Proof.
   eexists. eexists. split; [vm_compute; reflexivity|]. split; vm_compute; reflexivity.
 Qed.
 
+(* the link of the new vertex in the two examples: pinched at vertex 0 in the
+   first (ridge [0] in four link faces -- the premise of
+   C03_link_manifold_keeps_hull_property fails exactly there), a closed polygon
+   in the second *)
+Example C03_link_examples :
+  let t := init [0;1;2;3;4;5] C03_pinched_ss in
+  let t1 := fst (step 2 t C03_pinched_op) in
+  let t2 := fst (add_point 2 t 6 (Some [0;1;2]) (C03_ex_orc [] [0;1;2] [] [] [[0;1;2];[0;2;3]])) in
+  cf [0] (link_of 6 (simplices t1)) = 4 /\
+  forallb (fun r => cf r (link_of 6 (simplices t2)) <=? 2) (all_faces (link_of 6 (simplices t2))) = true /\
+  link_of 6 (simplices t2) = [[1;2];[0;1];[2;3];[0;3]].
+Proof. vm_compute. repeat split. Qed.
+
 Print Assumptions C03_index_consistent.
 Print Assumptions C03_report_exact.
 Print Assumptions C03_reject_unchanged.
